@@ -37,11 +37,17 @@ OPS = [["set", "F1", {"a": 2}], ["setkw", "F1", {"b": 1}], ["update", "F1", {"a"
 FIRSTS = [None, ["set", "F1", {"z": 0}]]
 
 
-def histories():
+BIG = ["update", "F1", {"big": "x" * 9000, "a": 2}]   # more than one buffer: the temporary file is written in two pieces
+
+
+def histories(tier="quick"):
     for pn in PRE:
         for first in FIRSTS:
             for op in OPS:
                 yield [pn, first, op]
+    if tier == "thorough":
+        yield ["a1", None, BIG]
+        yield ["none", None, BIG]
 
 
 def build_pre(C, pn):
@@ -229,7 +235,7 @@ def run_shard(sh):
     C = c15.ctx()
     rec = Recorder(0, 1, sh["seed"])
     if sh["mode"] == "crash":
-        for i, h in enumerate(histories()):
+        for i, h in enumerate(histories(sh["tier"])):
             if i % sh["count"] != sh["index"]:
                 continue
             run_history(C, h, rec)
